@@ -64,7 +64,7 @@ def run_harness(ctx, cases, tag, keep=False):
     inp = os.path.join(ctx.work, f"{tag}.in.ndjson")
     outp = os.path.join(ctx.work, f"{tag}.out.ndjson")
     write_ndjson(inp, cases)
-    args = ["iceberg-replay", inp, outp, os.path.join(ctx.work, "tables"), "8"]
+    args = ["iceberg-replay", inp, outp, os.path.join(ctx.work, "tables"), "8" if ctx.tier == "quick" else "12"]
     if keep:
         args.append("keep")
     p = qev(args, timeout=3000, env={"QE_IPC_CACHE": "0", "RAYON_NUM_THREADS": "4"}, check=False)
@@ -290,9 +290,10 @@ def replay(ctx, obj):
     ctx.set("distinct_nontrivial", 1 if nontrivial(c) else 0)
     ctx.sample({"hist": c["hist"], "obs": rec["obs"]})
     obs = {o["target"]: o for o in rec["obs"]}
+    # every target of the case is re-judged (the recorded one is `t`)
     for (tt, why) in judge_case(rec):
-        if tt == t or True:
-            ctx.violation({"case": c, "target": tt, "observed": obs[tt]}, f"hist={c['hist']} open({tt}): {why}")
+        ctx.violation({"case": c, "target": tt, "observed": obs[tt]}, f"hist={c['hist']} open({tt}): {why}")
+    ctx.set("replayed_target", t)
 
 
 # --------------------------------------------------------------------------------------------
